@@ -39,6 +39,7 @@ type loadSpec struct {
 	TimeoutMS int
 	MaxSteps  int64
 	XCheck    bool
+	Fixed     map[string]uint64
 }
 
 func absVerif(p string) string {
@@ -146,11 +147,17 @@ func loadFlags(fs *flag.FlagSet) func() *loadSpec {
 	to := fs.Int("timeout", 20000, "solver timeout per query (ms)")
 	ms := fs.Int64("maxsteps", 20000000, "instruction budget per path")
 	xc := fs.Bool("xcheck", false, "record assertion queries for cross-checking")
+	fix := fs.String("fix", "", "JSON object of inputs forced to concrete values")
 	return func() *loadSpec {
 		ls := &loadSpec{Dir: *dir, Pkg: *pkg, Fn: *fn, TimeoutMS: *to, MaxSteps: *ms, XCheck: *xc,
 			Params: map[string]int{}, Overrides: parseKV(*ovr)}
 		if *files != "" {
 			ls.Files = strings.Split(*files, ",")
+		}
+		if *fix != "" {
+			if err := json.Unmarshal([]byte(*fix), &ls.Fixed); err != nil {
+				fatal("-fix: %v", err)
+			}
 		}
 		for k, v := range parseKV(*params) {
 			n, err := strconv.Atoi(v)
